@@ -25,7 +25,7 @@ var c15Starts = []uint32{1, 0x7FFF, 0xFFF0, 0xFFF8, 0xFFFD, 0xFFFE, 0xFFFF, 0x10
 func c15Gen(tier string, seed int64) []fw.Case {
 	n := 12
 	if tier == "thorough" {
-		n = 300
+		n = 1500
 	}
 	var cs []fw.Case
 	for i, s := range c15Starts {
